@@ -5,7 +5,7 @@
 set -u
 patch=$(realpath "$1"); tier=$2; shift 2
 EV=${SEEDED_VERIF_COPY:-/tmp/seeded_verif_copy}
-exec 9>/tmp/.seeded_eval.lock; flock 9
+exec 9>"${EV}.lock"; flock 9
 mkdir -p "$EV"
 rsync -a --delete --exclude replays --exclude evidence --exclude .git /verif/ "$EV"/
 mkdir -p "$EV/evidence" "$EV/replays"
